@@ -21,6 +21,7 @@ type Ctx struct {
 	queue []string // case lines waiting for execution (isolated families)
 	iso   bool     // run cases in worker subprocesses (panic/spin/oom isolation)
 	only  map[string]bool // keep only these ops (nil: all)
+	sink  func(op string, toks []string) // when set, cases are handed to sink instead of being executed
 }
 
 func (c *Ctx) thorough() bool { return c.tier == "thorough" }
@@ -142,6 +143,10 @@ func (c *Ctx) run(op string, args ...interface{}) {
 		toks = append(toks, fmt.Sprint(a))
 	}
 	line := op + " " + strings.Join(toks, " ")
+	if c.sink != nil {
+		c.sink(op, toks)
+		return
+	}
 	if c.only != nil && !c.only[op] {
 		return
 	}
